@@ -35,6 +35,10 @@ type half struct {
 
 	holdReads bool // reads block even when data is queued (a peer that stopped reading)
 
+	// voidAfterRClose: once the reader's end has been closed, writes are accepted and thrown away instead of
+	// failing, the way a TCP socket accepts a write after the peer's FIN (the reset comes later, if ever)
+	voidAfterRClose bool
+
 	failWriteAt int64 // >=0: writes fail once written reaches this many bytes
 	cutReadAt   int64 // >=0: reader sees EOF after this many bytes (rest discarded)
 }
@@ -115,6 +119,10 @@ func (c *Conn) Write(p []byte) (int, error) {
 	for len(p) > 0 {
 		if h.wclosed {
 			return total, io.ErrClosedPipe
+		}
+		if h.rclosed && h.voidAfterRClose {
+			h.written += int64(len(p))
+			return total + len(p), nil
 		}
 		if h.rclosed {
 			return total, errors.New("memconn: broken pipe")
@@ -270,6 +278,15 @@ func (c *Conn) SetWriteLimit(n int) {
 	h.mu.Lock()
 	h.limit = n
 	h.cond.Broadcast()
+	h.mu.Unlock()
+}
+
+// WritesSurvivePeerClose makes writes from this end succeed (into the void) after the peer has closed its end,
+// like a TCP socket after the peer's FIN; the default is an immediate "broken pipe".
+func (c *Conn) WritesSurvivePeerClose(on bool) {
+	h := c.w
+	h.mu.Lock()
+	h.voidAfterRClose = on
 	h.mu.Unlock()
 }
 
